@@ -229,7 +229,7 @@ _p('C05', 'The instance model stays coherent under any history of edits',
             ('R5', 'Model.remove_asset_from_association')])
 
 _p('C06', 'A model can only hold what the language allows',
-   ['R17', 'R8', 'R18', 'R20', 'R10', 'R22', 'R25'],
+   ['R17', 'R8', 'R18', 'R20', 'R6', 'R10', 'R22', 'R25'],
    decided=['R17 T11a: per asset the schema entry has id/type, allOf to every direct super asset, and for every '
             'defense step a number property with minimum 0, maximum 1 and default 1.0 iff its TTC is Enabled else 0.0',
             'R17 T11b: per association an array field per end typed by $ref to the declared asset of that end, '
